@@ -141,6 +141,28 @@ func gen(g *vh.Gen) {
 			g.Emit("lines", g.Pick("mem", "file"), strings.Join(h, ","))
 		}
 	}
+	// total sizes just below and at powers of two: the message as DATA carried it is shorter than the stored source by
+	// the trace headers (about 150 bytes), so a size hint taken from one and a buffer filled with the other disagree
+	// only in this band
+	for _, bnd := range []int{4096, 8192, 16384, 32768, 65536} {
+		for k := 0; k < g.N(5, 60); k++ {
+			total := bnd - g.Intn(260) + g.Intn(3)
+			ls := []string{"Subject: size " + strconv.Itoa(total), ""}
+			cur := len(ls[0]) + 2
+			for total-cur > 72 {
+				ls = append(ls, strings.Repeat(g.Pick("x", "y", "z"), 70))
+				cur += 71
+			}
+			if total-cur >= 1 {
+				ls = append(ls, strings.Repeat("e", total-cur-1))
+			}
+			h := make([]string, len(ls))
+			for j, l := range ls {
+				h[j] = vh.HS(l)
+			}
+			g.Emit("lines", g.Pick("mem", "file", "file"), strings.Join(h, ","))
+		}
+	}
 	// the assembled server (child process: FullAssembly + Services.Start, real SMTP / HTTP / POP3 listeners, Go's default
 	// HTTP client, i.e. with gzip offered): stored sizes around multiples of 32 KiB (copy-buffer boundaries of the HTTP
 	// path) and ordinary hostile bodies
